@@ -217,7 +217,14 @@ func (a *Adapter) write(name, args string, fn func(st *State) error) error {
 // goroutines get descheduled).
 var OnCall func(name string)
 
+// OnCallArgs, when set, is told the name and the journal rendering of the arguments of every call
+// at its start (white-box assertions about the state in which a call is made).
+var OnCallArgs func(name, args string)
+
 func (a *Adapter) call(name, args string, mutating bool, fn func(st *State) error) (err error) {
+	if OnCallArgs != nil {
+		OnCallArgs(name, args)
+	}
 	if OnCall != nil {
 		OnCall(name)
 	}
